@@ -27,6 +27,10 @@ type c12Norm struct {
 	regroup  bool // binary sub-expression without ParenExpr is re-attached by operator precedence (printed flat)
 }
 
+// shipped: the model set as it applies to the tree that came back.  Re-attachment by precedence models how the
+// planned tree is *printed*; a tree that a parser has built is what it is.
+func (n c12Norm) shipped() c12Norm { n.regroup = false; return n }
+
 // the harness's own precedence table (influxql.Token.Precedence() is code under test)
 func c12Prec(op Token) int {
 	switch op {
@@ -840,7 +844,7 @@ func VerifC12CanonFields(fs Fields) string { return c12CanonFields(fs, c12Norm{}
 
 // VerifC12ExplainExpr: kinds of the known defects that account for planned != shipped (nil: none do).
 func VerifC12ExplainExpr(planned, shipped Expr) []string {
-	return c12Explain(func(n c12Norm) (string, string) { return c12CanonN(planned, n), c12CanonN(shipped, n) }, []Expr{planned})
+	return c12Explain(func(n c12Norm) (string, string) { return c12CanonN(planned, n), c12CanonN(shipped, n.shipped()) }, []Expr{planned})
 }
 
 func VerifC12ExplainFields(planned, shipped Fields) []string {
@@ -848,7 +852,9 @@ func VerifC12ExplainFields(planned, shipped Fields) []string {
 	for i, f := range planned {
 		exprs[i] = f.Expr
 	}
-	return c12Explain(func(n c12Norm) (string, string) { return c12CanonFields(planned, n), c12CanonFields(shipped, n) }, exprs)
+	return c12Explain(func(n c12Norm) (string, string) {
+		return c12CanonFields(planned, n), c12CanonFields(shipped, n.shipped())
+	}, exprs)
 }
 
 func VerifC12ExplainFailure(planned []Expr, errText string, handReparser bool) string {
